@@ -16,6 +16,12 @@
 #include "bitserializer/types/std/vector.h"
 #include "bitserializer/types/std/array.h"
 #include "bitserializer/types/std/map.h"
+#include "bitserializer/types/std/tuple.h"
+#include "bitserializer/types/std/pair.h"
+#include "bitserializer/types/std/list.h"
+#include "bitserializer/types/std/deque.h"
+#include "bitserializer/types/std/set.h"
+#include "bitserializer/types/std/optional.h"
 #include <pugixml.hpp>
 
 using namespace sv; using ref::Val; using tl::archName;
@@ -183,12 +189,76 @@ static void followUp(bsx::Ctx& c, const std::string& sig) {
 	if (r.threw) c.violation(sig + "/out=follow_up_failed", std::string("fault-free save after the faulted operation threw ") + r.cls);
 }
 
+
+// ---- (e) errors raised while an element of a std adapter is being loaded, under every mismatch policy ---------------
+// The error (number overflow with OverflowNumberPolicy::ThrowError, ill-formed UTF-8 into a wide string with
+// UtfEncodingErrorPolicy::ThrowError, input that ends inside the element) has nothing to do with the mismatched-types
+// policy, so it must reach the caller whether that policy is ThrowError or Skip.
+template <class E> using KTuple = std::tuple<int, E, int>;      template <class E> using KPair = std::pair<int, E>;
+template <class E> using KArray = std::array<E, 2>;             template <class E> using KVector = std::vector<E>;
+template <class E> using KList = std::list<E>;                  template <class E> using KDeque = std::deque<E>;
+template <class E> using KSet = std::set<E>;                    template <class E> using KMap = std::map<std::string, E>;
+template <class E> using KOptional = std::optional<E>;          template <class E> using KVecTuple = std::vector<std::tuple<int, E>>;
+template <class E> using KNested = std::vector<std::vector<E>>;
+template <class E> static void fillK(std::tuple<int, E, int>& x, const E& v) { x = {1, v, 3}; }
+template <class E> static void fillK(std::pair<int, E>& x, const E& v) { x = {1, v}; }
+template <class E> static void fillK(std::array<E, 2>& x, const E& v) { x[0] = v; x[1] = v; }
+template <class E> static void fillK(std::vector<E>& x, const E& v) { x = {v, v}; }
+template <class E> static void fillK(std::list<E>& x, const E& v) { x = {v, v}; }
+template <class E> static void fillK(std::deque<E>& x, const E& v) { x = {v, v}; }
+template <class E> static void fillK(std::set<E>& x, const E& v) { x = {v}; }
+template <class E> static void fillK(std::map<std::string, E>& x, const E& v) { x = {{"k", v}}; }
+template <class E> static void fillK(std::optional<E>& x, const E& v) { x = v; }
+template <class E> static void fillK(std::vector<std::tuple<int, E>>& x, const E& v) { x = {{1, v}, {2, v}}; }
+template <class E> static void fillK(std::vector<std::vector<E>>& x, const E& v) { x = {{v}, {v, v}}; }
+static const char* kKindName[] = {"tuple", "pair", "array", "vector", "list", "deque", "set", "map", "optional", "vector<tuple>", "vector<vector>"};
+template <template <class> class K> static void adapterErrors(bsx::Ctx& c, int kind, bool objectKind) {
+	int arch = c.choose(2, "archive");   // MsgPack, JSON
+	int err = c.choose(3, "error");      // 0 overflow, 1 ill-formed UTF-8 into a wide string, 2 input ends inside (MsgPack, array-like kinds)
+	int mm = c.choose(2, "mismatch_policy"); int stream = c.choose(2, "stream");
+	static const char* errName[] = {"overflow", "utf_error", "truncated"};
+	std::string sig = std::string("C20/adapter_error/") + archName(arch) + "/kind=" + kKindName[kind] + "/error=" + errName[err] + (mm ? "/mismatch=skip" : "/mismatch=throw") + (stream ? "/stream" : "/mem");
+	auto o = lib::opts(true, mm == 0); o.utfEncodingErrorPolicy = BitSerializer::Convert::Utf::UtfEncodingErrorPolicy::ThrowError;
+	long leaked = 0; Res r;
+	auto doc = [&](auto& src) { return arch == tl::MsgPack ? BitSerializer::SaveObject<tl::MP>(src) : BitSerializer::SaveObject<tl::JS>(src); };
+	auto load = [&](auto& target, const std::string& bytes) { return arch == tl::MsgPack ? ledgerTypedLoad<tl::MP>(target, bytes, stream == 1, o, leaked) : ledgerTypedLoad<tl::JS>(target, bytes, stream == 1, o, leaked); };
+	if (err == 0) {
+		K<int> src; fillK(src, 300); std::string bytes = doc(src);
+		c.describe(sig, "300 into uint8_t element; doc=" + (arch == tl::MsgPack ? bsx::hex(bytes) : bytes));
+		K<uint8_t> target; r = load(target, bytes);
+		c.nontrivial(sig); judgeCommon(c, sig, r, leaked, true, "overflowing element");
+	} else if (err == 1) {
+		K<std::string> src; fillK(src, std::string("a\xC3")); std::string bytes = doc(src);
+		c.describe(sig, "ill-formed UTF-8 'a C3' into u16string element; doc=" + bsx::hex(bytes));
+		K<std::u16string> target; r = load(target, bytes);
+		c.nontrivial(sig); judgeCommon(c, sig, r, leaked, true, "ill-formed UTF-8 element");
+	} else {
+		if (arch != tl::MsgPack || objectKind) { c.outcome("n/a"); return; }   // maps: the throwing object-scope destructor is a listed finding
+		K<int> src; fillK(src, 70000); std::string bytes = doc(src);
+		int len = c.choose(static_cast<int>(bytes.size()), "len");
+		c.describe(sig, "len=" + std::to_string(len) + " of " + bsx::hex(bytes));
+		K<int> target; r = load(target, bytes.substr(0, static_cast<size_t>(len)));
+		c.nontrivial(sig + std::to_string(len)); judgeCommon(c, sig, r, leaked, true, "len=" + std::to_string(len));
+	}
+	if (kind == 0 && err == 0 && arch == 0 && !stream) c.sample(sig + " -> " + r.cls);
+}
+
 static void body(bsx::Ctx& c) {
 	static bool once = (pugi::set_memory_management_functions(pugiAlloc, pugiFree), true); (void)once;
 	const bool thorough = c.tier == "thorough";
-	int scen = c.choose(7, "scenario");
+	int scen = c.choose(8, "scenario");
 	static std::vector<Doc> C[4] = {corpus(0), corpus(1), corpus(2), corpus(3)};
 	static const char* scenName[] = {"load_truncated", "load_alloc_fail", "save_alloc_fail", "load_stream_fault", "save_stream_fault", "mid_operation_error", "typed_alloc_fail"};
+	if (scen == 7) {
+		int kind = c.choose(11, "kind");
+		switch (kind) {
+		case 0: adapterErrors<KTuple>(c, kind, false); break; case 1: adapterErrors<KPair>(c, kind, true); break; case 2: adapterErrors<KArray>(c, kind, false); break;
+		case 3: adapterErrors<KVector>(c, kind, false); break; case 4: adapterErrors<KList>(c, kind, false); break; case 5: adapterErrors<KDeque>(c, kind, false); break;
+		case 6: adapterErrors<KSet>(c, kind, false); break; case 7: adapterErrors<KMap>(c, kind, true); break; case 8: adapterErrors<KOptional>(c, kind, false); break;
+		case 9: adapterErrors<KVecTuple>(c, kind, false); break; default: adapterErrors<KNested>(c, kind, false); break;
+		}
+		return;
+	}
 	if (scen == 6) {
 		// ---- (b') k-th allocation failure while saving / loading typed std containers, all archives, memory and stream, UTF-16 stream output as well
 		int arch = c.choose(4, "archive"); int save = c.choose(2, "save"); int stream = c.choose(2, "stream"); int enc = stream && save ? c.choose(2, "utf16") : 0;
